@@ -2,12 +2,14 @@
 """regenerates MANIFEST.json from checks/*.py (CLAIMS below); run after adding a check"""
 import json, os
 CLAIMS = {
+ "C02": ("symbolic execution of the real two-pass assembler on variable-length instruction forms with symbolic backward/forward operand values; Z3 decides pass-1 label == pass-2 placement", "1 (C02)"),
  "C03": ("symbolic execution of the real file writers/readers on images with symbolic bytes vs. independent format decoders; Z3 decides content/checksum assertions", "1 (C03)"),
  "C04": ("symbolic execution of EvalExpression/Operator/Var (LLVM IR) vs. reference evaluator; Z3 decides every path", "1 (C04)"),
  "C05": ("symbolic execution of the real two-pass assembler on directive templates with symbolic operand values; Z3 decides placement/range/frame assertions", "1 (C05)"),
  "C07": ("symbolic execution of disasm_<cpu> -> tokenizer/parse_instruction_<cpu> -> disasm_<cpu> on symbolic bytes; Z3 decides text/length/byte fixpoint assertions", "1 (C07)"),
  "C09": ("differential symbolic execution of the real assembler on a program and its hand expansion with symbolic arguments; Z3 decides image equality", "1 (C09)"),
  "C10": ("symbolic execution of the real conditional-assembly code on templates with symbolic condition operands/operators vs. reference evaluator; Z3 decides branch selection", "1 (C10)"),
+ "C11": ("symbolic execution of the real Symbols class on all bounded operation sequences vs. scoping model, plus two-pass templates; Z3 decides value assertions", "1 (C11)"),
  "C08": ("symbolic execution of each disasm_<cpu>() over symbolic byte windows; Z3 decides length/termination/bounds/locality assertions", "1 (C08)"),
 }
 NOT_YET = {}
